@@ -32,11 +32,14 @@ for m in sorted(glob.glob(os.path.join(VERIF, "seeded", "*", "meta.json"))):
         first = "by " + re.match(r"(?i)\s*caught by (C\d+)", hist).group(1) + " only"
     w, files = what(d["id"])
     w = d.get("summary") or w
+    if d.get("outside_family"):
+        caught, rules, first = ["— (not decided)"], [], "no: " + d["outside_family"]
     rows.append("| %s | %s | %s | %s | %s | %s |" % (d["id"], ", ".join(os.path.basename(f) for f in files), w, ", ".join(caught), ", ".join("`%s`" % r for r in rules), first))
 n = len(rows)
 missed = sum(1 for r in rows if r.endswith("| no |"))
+undecided = sum(1 for r in rows if "(not decided)" in r)
 table = "| seed | file(s) | what the change does | fires in | rule(s) | caught when first tried |\n|---|---|---|---|---|---|\n" + "\n".join(rows)
-table += "\n\n%d seeded changes; %d were caught by the checks as they stood when the change arrived, %d were missed (or caught only under another property) and led to a new or extended rule; all %d are caught now (`tools/bank.py seeded`).\n" % (n, n - missed - sum(1 for r in rows if "only |" in r), missed + sum(1 for r in rows if "only |" in r), n)
+table += "\n\n%d seeded changes; %d were caught by the checks as they stood when the change arrived, %d were missed (or caught only under another property) and led to a new or extended rule; %d are caught now and %d are recorded as not decided by this technique, with the reason (`tools/bank.py seeded`).\n" % (n, n - missed - undecided - sum(1 for r in rows if "only |" in r), missed + undecided + sum(1 for r in rows if "only |" in r), n - undecided, undecided)
 p = os.path.join(VERIF, "DESIGN.md")
 s = open(p).read()
 a, b = "<!-- SEEDTABLE:BEGIN -->", "<!-- SEEDTABLE:END -->"
